@@ -40,7 +40,7 @@ package sandbox
 //@ spec func inSum(ins []*protos.TxInput, lo int, k int) int = k <= 0 ? 0 : inSum(ins, lo, k - 1) + natOf(ins[lo + k - 1] == nil ? nil : ins[lo + k - 1].Amount)
 //@ macro ownerOf(in) = (in == nil ? "" : str(in.FromAddr))
 //@ func UTXOReader.SelectUtxo
-//@   property C10
+//@   property C10 C07 C09
 //@   uses natNonneg
 //@   let ins = r.inputCache
 //@   let lo = r.inputIdx
@@ -186,3 +186,21 @@ package sandbox
 //@   ensures value_in_write_set: result == nil ==> mv(xc.outputsCache, bucket, str(key)) != 0 && asVDp(mv(xc.outputsCache, bucket, str(key))).PureData.Value == value && asVDp(mv(xc.outputsCache, bucket, str(key))).PureData.Bucket == bucket
 //@   ensures written_key_was_read: result == nil && bucket != TransientBucket && mvOld(xc.outputsCache, bucket, str(key)) == 0 && (mvOld(xc.inputsCache, bucket, str(key)) != 0 || stateAt(xc.model, bucket, str(key)) != 0) ==> mv(xc.inputsCache, bucket, str(key)) != 0
 //@   ensures read_set_still_caches_state: rsConsistent(xc)
+
+// ======================= C10: the read / write sets handed out =======================
+// The read set is every record of the inputs level, the write set every record of the
+// outputs level, in the level's own order - a tombstone that was read is a read like any other.
+//@ func MemXModel.NewIterator
+//@   noverify
+//@   assumes a_scan_from_the_start: result != nil && sel(itPos, result) == 0 - 1 && itLen(result) >= 0
+//@ func XMCache.getReadSets
+//@   property C10
+//@   local iter ledger.XMIterator
+//@   ensures as_many_as_recorded: len(result) == itLen(iter)
+//@   ensures every_recorded_read_is_handed_out: (forall i int :: 0 <= i && i < len(result) ==> result[i] == itValAt(iter, i))
+//@   loop 1 invariant collected_so_far: 0 - 1 <= sel(itPos, iter) && sel(itPos, iter) + 1 <= itLen(iter) && len(readSets) == sel(itPos, iter) + 1 && (forall i int :: 0 <= i && i < len(readSets) ==> readSets[i] == itValAt(iter, i))
+//@ func XMCache.getWriteSets
+//@   property C10
+//@   local iter ledger.XMIterator
+//@   ensures every_write_is_handed_out: len(result) == itLen(iter) && (forall i int :: 0 <= i && i < len(result) ==> result[i] == itValAt(iter, i).PureData)
+//@   loop 1 invariant collected_so_far: 0 - 1 <= sel(itPos, iter) && sel(itPos, iter) + 1 <= itLen(iter) && len(writeSets) == sel(itPos, iter) + 1 && (forall i int :: 0 <= i && i < len(writeSets) ==> writeSets[i] == itValAt(iter, i).PureData)
